@@ -373,6 +373,34 @@ def on_message_guards(out, fn, readable_key, min_is_param, tu=None):
     out.append("/-- `onMessage`: `parse` is handed the bytes from this offset ... -/\n"
                "def frameOffset : Int := %s\n" % unparen(t.expr(a[0])))
     out.append("/-- ... and this many of them -/\ndef frameLen (len : Int) : Int := %s\n" % unparen(t.expr(a[1])))
+    if min_is_param:
+        out.append(alloc_per_frame(fn, w, kids(avail)[1], ps[0]))
+
+
+def alloc_per_frame(fn, w, block, parse_call):
+    """ProtobufCodecLite::onMessage: where the message object handed to `parse` (and then, as a shared_ptr, to the
+    message callback) is allocated.  True iff the one `prototype_->New()` of the function sits in a statement of the very
+    block (the then-branch of the frame test, inside the `while`) that holds the statement calling `parse`, in front of
+    it, and not nested in a further `if` / loop: then every parsed frame gets an object of its own.  Anything else (the
+    allocation in front of the loop, or under `if (!message)`) is `false`: one object serves several frames."""
+    news = [c for c in walk(body_of(fn)) if c.get("kind") == "CXXMemberCallExpr" and callee_name(c) == "New"
+            and mentions(c, "prototype_")]
+    if len(news) != 1:
+        raise ExtractError("onMessage: expected exactly one `prototype_->New()`, found %d" % len(news))
+    if block.get("kind") != "CompoundStmt" or block not in list(walk(w)):
+        raise ExtractError("onMessage: the then-branch of the frame test is not a block inside the while loop")
+    stmts = kids(block)
+    i_new = [i for i, st in enumerate(stmts) if news[0] in list(walk(st))]
+    i_parse = [i for i, st in enumerate(stmts) if parse_call in list(walk(st))]
+    if len(i_parse) != 1:
+        raise ExtractError("onMessage: the statement that calls parse was not found")
+    nested = {"IfStmt", "WhileStmt", "ForStmt", "DoStmt", "SwitchStmt", "CXXForRangeStmt", "ConditionalOperator", "LambdaExpr"}
+    per_frame = (len(i_new) == 1 and i_new[0] < i_parse[0]
+                 and not any(x.get("kind") in nested for x in walk(stmts[i_new[0]])))
+    return ("/-- `onMessage`: the message object that `parse` fills and the message callback receives (as a `shared_ptr`)\n"
+            "is allocated (`prototype_->New()`) by an unconditional statement of the loop body, in front of `parse`: every\n"
+            "parsed frame gets an object of its own.  `false`: one object serves several frames of one call. -/\n"
+            "def allocPerFrame : Bool := %s\n" % ("true" if per_frame else "false"))
 
 
 def generate():
